@@ -930,6 +930,20 @@ func (a *analyzer) refine(fn *ssa.Function, st *state, cond ssa.Value, truth boo
 		}
 		return st
 	}
+	// pos_now <= snapshot where the cursor cannot be before the snapshot: the positions are equal (`p.position > start`
+	// as the test for "something was consumed")
+	if op == token.LEQ || op == token.GEQ {
+		mx, okx := st.marks["v:"+x.Name()]
+		my, oky := st.marks["v:"+y.Name()]
+		if okx && oky {
+			// position(x) - position(y) = distance(y) - distance(x)
+			if op == token.LEQ && my.lo-mx.hi >= 0 {
+				op = token.EQL
+			} else if op == token.GEQ && mx.lo-my.hi >= 0 {
+				op = token.EQL
+			}
+		}
+	}
 	// pos_now == snapshot  (backtracking idiom)
 	if op == token.EQL {
 		_, okx := st.marks["v:"+x.Name()]
